@@ -885,7 +885,9 @@ pub fn judge_pools(st: &mut Stats, spec: &DiagSpec) {
         for driver in ["bss-first", "cats-first", "dynamic-t", "cutting"] {
             st.inc("evaluations");
             let gg = g.clone();
-            let r = guarded(|| pool.install(|| run_decomposer(&gg, driver, SimpFunc::FullSimp, true, true)));
+            // many-component diagrams: without simplification (full simplification would evaluate the small pieces itself)
+            let simp = if spec.verts.len() >= 6 && spec.edges.len() * 2 == spec.verts.len() { SimpFunc::NoSimp } else { SimpFunc::FullSimp };
+            let r = guarded(|| pool.install(|| run_decomposer(&gg, driver, simp, true, true)));
             let wit = || json!({"kind": "pool", "spec": spec.to_json(), "driver": driver, "threads": threads});
             match r {
                 Err(p) => st.violation(Violation { sig: format!("pool|panic|{}", driver), detail: p, witness: wit() }),
@@ -1168,7 +1170,19 @@ pub fn run(rep: &mut Report) {
     {
         let t0 = Instant::now();
         let mut st = Stats::default();
-        for spec in [t_star(6), t_star(8), many_t_family()[5].clone()] {
+        let mut specs = vec![t_star(6), t_star(8), many_t_family()[5].clone()];
+        // many connected components (k disjoint T-T pairs with different phases): the split point fans out into k
+        // tasks; k on both sides of twice the pool size for every pool size 1..16 (k = 3..9, 33, 35)
+        for k in [3usize, 4, 5, 6, 7, 9, 33, 35] {
+            let mut d = DiagSpec::empty();
+            for i in 0..k {
+                let a = d.add(1, [(1, 4), (3, 4), (-1, 4)][i % 3]);
+                let b = d.add(1, [(1, 4), (-3, 4)][i % 2]);
+                d.edges.push((a, b, true));
+            }
+            specs.push(d);
+        }
+        for spec in specs {
             judge_pools(&mut st, &spec);
         }
         rep.absorb("real rayon pools 1..16", "decompose_parallel on real rayon pools with every thread count 1..16 (uncontrolled interleaving: differential supplement, not the deciding step)", true, None, t0, st);
